@@ -1,6 +1,7 @@
 pub mod common;
 pub mod c01;
 pub mod c02;
+pub mod c03;
 pub mod fscommon;
 pub mod c04;
 pub mod c05;
@@ -31,6 +32,7 @@ pub fn dispatch(id: &str, tier: Tier, seed: u64, replay: Option<&str>) -> i32 {
     match id {
         "C01" => run(&c01::C01, tier, seed, replay),
         "C02" => run(&c02::C02, tier, seed, replay),
+        "C03" => run(&c03::C03, tier, seed, replay),
         "C04" => run(&c04::C04, tier, seed, replay),
         "C05" => run(&c05::C05, tier, seed, replay),
         "C06" => run(&c06::C06, tier, seed, replay),
